@@ -34,6 +34,8 @@ type Conn struct {
 	ReadLog  []int
 	// Yields controls whether Read/Write/Close are hook points of the seeded controller
 	Yields bool
+	// Addr, when set, is this end's address (crypto/ssh's known-hosts check wants a TCP address)
+	Addr net.Addr
 }
 
 type segment struct {
@@ -211,10 +213,22 @@ func (c *Conn) Closed() bool {
 }
 
 // LocalAddr implements net.Conn.
-func (c *Conn) LocalAddr() net.Addr { return addr(c.name) }
+func (c *Conn) LocalAddr() net.Addr {
+	if c.Addr != nil {
+		return c.Addr
+	}
+
+	return addr(c.name)
+}
 
 // RemoteAddr implements net.Conn.
-func (c *Conn) RemoteAddr() net.Addr { return addr(c.peer.name) }
+func (c *Conn) RemoteAddr() net.Addr {
+	if c.peer.Addr != nil {
+		return c.peer.Addr
+	}
+
+	return addr(c.peer.name)
+}
 
 // SetDeadline implements net.Conn.
 func (c *Conn) SetDeadline(t time.Time) error { return c.SetReadDeadline(t) }
